@@ -135,7 +135,9 @@ def make_settings(st, outdir):
 
 def run_real(sb_dir, case, variant='v0', cwd_mode=None, loc='loc'):
     """materialise the case under sb_dir/variant and run the real cminx.document; returns dict(files, stdout, status)"""
-    base = os.path.join(sb_dir, variant); os.makedirs(base, exist_ok=True)
+    # directory names of the harness must not be matchable by generated exclude patterns (patterns see absolute paths, K7):
+    # e.g. a variant called 'alone' is excluded by the pattern 'a*'
+    base = os.path.join(sb_dir, 'zq9_' + variant); os.makedirs(base, exist_ok=True)
     inputs = case['inputs']; st = dict(case['settings'])
     results = dict(files={}, stdout='', status='ok', abs_inputs=[])
     old_cwd = os.getcwd()
